@@ -92,6 +92,20 @@ def run(rep, tier, seed):
                 [_state_key(s) for s in r.bsnaps.values()],
                 e1.outcome_key(r), r.outcome, len(r.sim.monitor.df))
     res, _ = engine.parallel_map(work, cs)
+    # the table must also be complete when the run was paused and resumed
+    # (start(k); resume(T)): one row per simulated step, read from
+    # sim.monitor.df as a user would after resume()
+    paused = []
+    for (sc, case), r0 in zip(cs, res):
+        if r0[5] != "returned" or not common.keep(len(paused) + r0[6], 6):
+            continue
+        T = int(r0[6]) + 1
+        for k in sorted({1, max(1, T // 2), T - 1}):
+            if 0 < k < T:
+                paused.append((sc + "/paused", dict(case, pauses=[k, T])))
+    res2, _ = engine.parallel_map(work, paused)
+    cs = cs + paused
+    res = res + res2
     for (sc, case), (vs, ne, nt, st, ok, outcome, nrows) in zip(cs, res):
         s = rep.scope(sc)
         s["cases"] += 1
